@@ -561,6 +561,12 @@ def check_tab(run: Run, prog: Program) -> None:
     def char_is(ch: str, vo: list[Any]) -> Any:
         """Scenario "the character under classification is `ch`" (vo: the origins that denote that character)."""
         def atom(e: ast.AST, nid: int) -> bool | None:
+            if isinstance(e, ast.Call) and isinstance(e.func, ast.Attribute) and not e.args and not e.keywords \
+                    and e.func.attr in _STR_PREDICATES:
+                xo = tfl.origin(e.func.value, nid)
+                if xo and all(q.kind == "iter" for q in xo) and names_eq(xo, vo):
+                    return bool(getattr(ch, e.func.attr)())  # a pure str predicate of the one character: evaluated
+                return None
             if not (isinstance(e, ast.Compare) and len(e.ops) == 1):
                 return None
             for x, y in ((e.left, e.comparators[0]), (e.comparators[0], e.left)):
@@ -590,8 +596,16 @@ def check_tab(run: Run, prog: Program) -> None:
         h = chars[0]
         b0 = [m for m, lab in tfl.cfg.succ[h.id] if lab == "iter"]
         vo_loop = tfl.origin(ast.Name(id=h.ast.target.id, ctx=ast.Load()), b0[0])  # type: ignore[union-attr]
+        def str_test(a: int) -> bool:
+            """A branch condition whose only calls are pure str predicates (`char.isspace()`): it cannot raise."""
+            n = tfl.cfg.nodes[a]
+            calls = [x for x in ast.walk(n.ast) if isinstance(x, ast.Call)] if n.kind == "test" and n.ast is not None else []
+            return bool(calls) and all(isinstance(x.func, ast.Attribute) and x.func.attr in _STR_PREDICATES and not x.args and not x.keywords
+                                       and isinstance(x.func.value, ast.Name) for x in calls)
+
         for ch in (" ", "\n", "\t"):
-            e_ws = pruned(tfl.cfg, char_is(ch, vo_loop), normal_only=False)
+            e_ws0 = pruned(tfl.cfg, char_is(ch, vo_loop), normal_only=False)
+            e_ws = lambda a, b, lab, e_ws0=e_ws0: e_ws0(a, b, lab) and not (lab.startswith("exc:") and str_test(a))  # noqa: E731
             ok_ws = ok_ws and tfl.cfg.path(b0[0], [h.id], edge_ok=e_ws) is not None \
                 and tfl.cfg.path(b0[0], [tfl.cfg.exit, tfl.cfg.raise_exit], avoid=[h.id], edge_ok=e_ws) is None
         metric_sites = [nid for nid, c in tfl.calls(lambda c: u(c.func) == "Token")
@@ -2052,6 +2066,9 @@ def check_fresh(run: Run, prog: Program) -> None:
                       "consumption() and production()", node=e, file=raw.file, instance=inst)
 
 
+_STR_PREDICATES = ("isspace", "isdigit", "isalpha", "isalnum", "isdecimal", "isnumeric", "isascii", "isprintable")
+
+
 def check_digits(run: Run, prog: Program) -> None:
     """C05.TOK (component ids): the number after `#` is read digit by digit -- while the next character is a
     digit it is appended to the result and consumed exactly once, the first non-digit ends the number without
@@ -2063,9 +2080,16 @@ def check_digits(run: Run, prog: Program) -> None:
         for c in (x for x in ast.walk(m.node) if isinstance(x, ast.Call) and u(x.func) == "Token"):
             a = positional(c, ["type", "value"])
             v = a.get("value")
-            if u(a.get("type")) == "TokenType.COMPONENT_METRIC" and isinstance(v, ast.Call) and isinstance(v.func, ast.Attribute) \
-                    and u(v.func.value) == "self" and v.func.attr in tcls.methods:
-                readers.add(v.func.attr)
+            if u(a.get("type")) != "TokenType.COMPONENT_METRIC" or v is None:
+                continue
+            vals: list[ast.AST | None] = [v]
+            if isinstance(v, ast.Name):  # the number was given a local name first
+                fm = Flow(prog, m)
+                vals = [o.node if o.kind == "expr" else None for o in fm.origin(v, fm.node_of(c), through_helpers=False)]
+            for v in vals:
+                if isinstance(v, ast.Call) and isinstance(v.func, ast.Attribute) \
+                        and u(v.func.value) == "self" and v.func.attr in tcls.methods:
+                    readers.add(v.func.attr)
     if len(readers) != 1:
         raise AnalysisError(f"{tcls.qual}: no single method reads the component id ({sorted(readers)})")
     fn = tcls.methods[readers.pop()]
@@ -2094,9 +2118,25 @@ def check_digits(run: Run, prog: Program) -> None:
             return None
         return pruned(cfg, lifted(fl, atom))
 
+    def rebinds_appended(a: ast.AST | None) -> str | None:
+        """`acc = acc + <char>` / `acc = f"{acc}{<char>}"`: the accumulator re-bound to itself with the character at its end."""
+        if not (isinstance(a, ast.Assign) and len(a.targets) == 1 and isinstance(a.targets[0], ast.Name)):
+            return None
+        v, name = a.value, a.targets[0].id
+        parts: list[ast.AST] = []
+        if isinstance(v, ast.BinOp) and isinstance(v.op, ast.Add):
+            parts = [v.left, v.right]
+        elif isinstance(v, ast.JoinedStr) and len(v.values) == 2 and all(
+                isinstance(x, ast.FormattedValue) and x.conversion == -1 and x.format_spec is None for x in v.values):
+            parts = [x.value for x in v.values]  # type: ignore[attr-defined]
+        if len(parts) == 2 and isinstance(parts[0], ast.Name) and parts[0].id == name and is_char(parts[1]):
+            return name
+        return None
+
     loops = [w for w in cfg.nodes if w.kind == "while" and w.id in fl.live]
     acc = [n.id for n in cfg.nodes if n.id in fl.live and (
         (isinstance(n.ast, ast.AugAssign) and isinstance(n.ast.target, ast.Name) and is_char(n.ast.value))
+        or rebinds_appended(n.ast) is not None
         or (isinstance(n.ast, ast.Expr) and isinstance(n.ast.value, ast.Call) and method_call(n.ast.value, None, "append")
             and len(n.ast.value.args) == 1 and is_char(n.ast.value.args[0])))]
     eat = [nid for nid, c in fl.calls(lambda c: (u(c.func) == "next" and len(c.args) == 1 and u(c.args[0]) == "self._formula")
@@ -2122,7 +2162,8 @@ def check_digits(run: Run, prog: Program) -> None:
             ok = leave or (cfg.path(body[0], acc + eat, edge_ok=no) is None and cfg.path(body[0], [w.id], edge_ok=no) is None)
             detail = "a character that is not a digit is appended to / consumed with the component id, or does not end it"
         if ok:
-            tgt = a_node.target.id if isinstance(a_node, ast.AugAssign) else u(a_node.value.func.value)  # type: ignore[union-attr]
+            tgt = a_node.target.id if isinstance(a_node, ast.AugAssign) else (
+                rebinds_appended(a_node) or u(a_node.value.func.value))  # type: ignore[union-attr]
             rets = fl.returns()
             ok = bool(rets) and all((lambda v: u(v) == tgt or (isinstance(v, ast.Call) and method_call(v, None, "join")
                                                               and len(v.args) == 1 and u(v.args[0]) == tgt))(cfg.nodes[r].ast.value) for r in rets)  # type: ignore[union-attr]
